@@ -1029,4 +1029,115 @@ theorem krausFull_sum (B : Basis CRat d (d * d)) (hs : Mat CRat (d * d) (d * d))
 
 end phasefix
 
+
+/-! ## real data through the executed (truncating) conversions -/
+section executed
+
+/-- real matrix / vector as complex data (`x ↦ x + 0i`) -/
+def ofRatMat {m n : Nat} (A : Mat Rat m n) : Mat CRat m n := Mat.ofFn fun i j => CRat.ofRat (A.get i j)
+def ofRatVec {n : Nat} (v : Vec Rat n) : Vec CRat n := Vec.ofFn fun i => CRat.ofRat (v.get i)
+
+theorem toList_eq_map_get {α : Type} {n : Nat} (v : Vec α n) : v.toList = (List.finRange n).map v.get := by
+  apply List.ext_getElem
+  · simp
+  · intro i h1 h2; simp [Vec.get]
+
+theorem toList_ofFn_comp {α β : Type} {n : Nat} (v : Vec α n) (f : α → β) :
+    (Vec.ofFn fun i => f (v.get i)).toList = v.toList.map f := by
+  rw [toList_eq_map_get, toList_eq_map_get v, List.map_map]
+  apply List.map_congr_left; intro a _; simp
+
+theorem toList_ofRatVec {n : Nat} (v : Vec Rat n) : (ofRatVec v).toList = v.toList.map CRat.ofRat :=
+  toList_ofFn_comp v CRat.ofRat
+
+theorem matList_ofRatMat {m n : Nat} (A : Mat Rat m n) : matList (ofRatMat A) = (matList A).map CRat.ofRat := by
+  unfold matList
+  rw [← toList_ofFn_comp (flat A) CRat.ofRat]
+  congr 1
+  apply Vec.ext'; intro x; simp [ofRatMat]
+
+theorem truncEntry_ofRat (eps x : Rat) (h : x = 0 ∨ ¬ rabs x < eps) : truncEntry eps (CRat.ofRat x) = .ok x := by
+  unfold truncEntry
+  rcases h with rfl | h
+  · by_cases h0 : rabs (0 : Rat) < eps <;> simp [CRat.ofRat, h0]
+  · simp [CRat.ofRat, h]
+
+/-- `truncate_hs` is the identity on real data whose entries are 0 or at least `eps` in modulus -/
+theorem truncList_ofRat (eps : Rat) (xs : List Rat) (h : ∀ x ∈ xs, x = 0 ∨ ¬ rabs x < eps) :
+    truncList eps (xs.map CRat.ofRat) = .ok xs := by
+  induction xs with
+  | nil => rfl
+  | cons x xs ih =>
+    rw [List.map_cons, truncList_cons, truncEntry_ofRat eps x (h x (by simp)), ih (fun y hy => h y (by simp [hy]))]
+
+theorem realList_map_ofRat (xs : List Rat) : realList (xs.map CRat.ofRat) = xs := by
+  induction xs with
+  | nil => rfl
+  | cons x xs ih => simp [realList, CRat.ofRat] at *; exact ih
+
+/-- `convert_hs_to_var(…, True)` on the flattened list: deleting row 0 drops the first `n` entries -/
+theorem matList_drop_eq {α : Type} {n : Nat} (M : Mat α n n) : (matList M).drop n = (hsToVarEq M).toList := by
+  apply List.ext_getElem
+  · simp [matList, Nat.sub_mul]
+  · intro k h1 h2
+    have hk : k < (n - 1) * n := by simpa using h2
+    have hn : 0 < n := by
+      rcases Nat.eq_zero_or_pos n with h | h
+      · subst h; simp at hk
+      · exact h
+    simp only [List.getElem_drop, matList, Vector.getElem_toList, hsToVarEq, Vec.ofFn, Vector.getElem_ofFn, flat]
+    congr 1
+    · apply Fin.ext
+      simp only [pdiv]
+      rw [Nat.add_comm, Nat.add_div_right _ hn]
+    · apply Fin.ext
+      simp only [pmod]
+      rw [Nat.add_comm, Nat.add_mod_right]
+
+theorem varToHsEq_ofRat {n : Nat} (w : Vec Rat ((n - 1) * n)) : varToHsEq (ofRatVec w) = ofRatMat (varToHsEq w) := by
+  apply Mat.ext'; intro i j
+  simp only [varToHsEq, ofRatMat, ofRatVec, Mat.get_ofFn, Vec.get_ofFn]
+  by_cases h : i.val = 0
+  · by_cases h2 : j.val = 0 <;> simp [h, h2, CRat.ofRat] <;> rfl
+  · simp [h]
+
+theorem unflat_ofRatVec {a b : Nat} (v : Vec Rat (a * b)) : (unflat (ofRatVec v) : Mat CRat a b) = ofRatMat (unflat v) := by
+  apply Mat.ext'; intro i j; simp [ofRatMat, ofRatVec]
+
+end executed
+
+/-! ## Frobenius norm and the unitarity of the Choi <-> HS maps -/
+section frob
+variable {K : Type} [CommRing K] [StarRing K] {d : Nat}
+
+/-- squared Frobenius norm `Σ conj(m_ij) m_ij` -/
+def frobSq {m n : Nat} (A : Mat K m n) : K := ∑ x, star ((flat A).get x) * (flat A).get x
+
+theorem toM_bbcConj_conjTranspose (B : Basis K d (d * d)) : ((bbcConj B).toM)ᴴ = (bbcT B).toM := by
+  ext x y; simp [bbcConj, bbcT, conj_eq_star, Matrix.conjTranspose_apply]
+
+/-- for an orthonormal basis Choi → HS preserves the Frobenius norm -/
+theorem frobSq_hsOfChoi (B : Basis K d (d * d)) (h : Orthonormal B) (c : Mat K (d * d) (d * d)) :
+    frobSq (hsOfChoiSparseRaw B c) = frobSq c := by
+  unfold frobSq
+  have e1 : (∑ x, star ((flat (hsOfChoiSparseRaw B c)).get x) * (flat (hsOfChoiSparseRaw B c)).get x)
+      = star (Vec.toV (flat (hsOfChoiSparseRaw B c))) ⬝ᵥ Vec.toV (flat (hsOfChoiSparseRaw B c)) := by
+    simp [dotProduct, Vec.toV]
+  have e2 : (∑ x, star ((flat c).get x) * (flat c).get x) = star (Vec.toV (flat c)) ⬝ᵥ Vec.toV (flat c) := by
+    simp [dotProduct, Vec.toV]
+  rw [e1, e2, toV_hsOfChoiSparseRaw_flat, Matrix.star_mulVec, Matrix.dotProduct_mulVec, Matrix.vecMul_vecMul,
+    toM_bbcConj_conjTranspose, bbc_complete B h, Matrix.vecMul_one]
+
+
+/-- `Σ_K |K⟫⟪K|` of a list of operators (row-major flattening) -/
+def choiOfKraus (ks : List (Mat K d d)) : Mat K (d * d) (d * d) :=
+  Mat.ofFn fun i j => (ks.map fun k => (flat k).get i * star ((flat k).get j)).sum
+
+theorem hsOfChoiSparseRaw_sub (B : Basis K d (d * d)) (x y : Mat K (d * d) (d * d)) :
+    hsOfChoiSparseRaw B (x.sub y) = (hsOfChoiSparseRaw B x).sub (hsOfChoiSparseRaw B y) := by
+  apply Mat.ext'; intro al be
+  simp only [Mat.sub, Mat.get_ofFn, hsOfChoiSparseRaw_get, mul_sub, Finset.sum_sub_distrib]
+
+end frob
+
 end QM.C02
